@@ -730,6 +730,22 @@ func (s *netSim) onCommit(nd *netNode, block *types.Block, ps *types.PartSet, se
 		return
 	}
 	ht.commits = append(ht.commits, netCommitRec{node: nd.id, round: seen.Round, bid: ht.bid(seen.BlockID), hash: block.Hash()})
+	// C04: the block time rule on the real LastCommit (cstate.MedianTime) against the Coq transcription
+	if s.mode == "C04" && len(ht.commits) == 1 && block.Height() > 1 {
+		if pht := s.hs[block.Height()-1]; pht != nil && block.LastCommit() != nil && len(block.LastCommit().Signatures) == len(pht.powers) {
+			l := []string{"M"}
+			for i, sg := range block.LastCommit().Signatures {
+				if !sg.Absent() {
+					l = append(l, fmt.Sprintf("%d:%d", sg.Timestamp.UnixNano(), pht.powers[i]))
+				}
+			}
+			s.tickOps = append(s.tickOps, strings.Join(l, " "))
+			s.tickObs = append(s.tickObs, fmt.Sprintf("median %d", cstate.MedianTime(block.LastCommit(), pht.vals).UnixNano()))
+			if !block.Time().Equal(cstate.MedianTime(block.LastCommit(), pht.vals)) {
+				s.fail("block-time-not-median", fmt.Sprintf("height %d", block.Height()))
+			}
+		}
+	}
 	s.o.Count("commit")
 	if seen.Round > 1 {
 		s.o.Count("commit:round>1")
@@ -2168,7 +2184,14 @@ func (s *netSim) blockSync() {
 			if psh.Equals(std) {
 				s.fail("blocksync-refuses-committed", fmt.Sprintf("height %d: %s", h, res))
 			} else {
+				// the block was committed with a part size other than types.BlockPartSizeBytes (Byzantine
+				// proposer); the processor recomputes the block id with the standard size and can never
+				// verify the commit: a syncing node is stuck below this height.  Liveness (C04), not agreement.
 				s.o.Mark("blocksync-nonstandard-parts-refused")
+				if s.mode == "C04" {
+					s.fail("blocksync-nonstandard-parts-refused", fmt.Sprintf("height %d: committed block id has parts header %d/%x, the processor expects %d/%x: %s",
+						h, psh.Total, psh.Hash[:4], std.Total, std.Hash[:4], res))
+				}
 			}
 			return
 		}
@@ -2266,6 +2289,125 @@ func (s *netSim) bftTimeScenario() bool {
 	return true
 }
 
+// staleLockScenario: four validators of equal power, one Byzantine (B), correct proposers P1, P2 in
+// rounds 1 and 2, X the third correct validator.
+//  round 1: everybody prevotes P1's block A; only X sees the polka (it locks A and precommits A);
+//           P1 and P2 see two prevotes for A and B's nil prevote, precommit nil and move on.
+//  round 2: P2 proposes a new block C; P1, P2 and B prevote C: P1 and P2 lock C.  X is still in round 1.
+//  round 3: P1 and P2 prevote C again.
+//  X now receives the round-2 prevotes (the polka for C completes while X is in round 1, the vote
+//  that completes it makes X skip to round 2) and then the round-3 prevotes (+2/3 any: X skips to
+//  round 3 before it prevoted or precommitted in round 2).  From then on the network is synchronous
+//  and B is silent.
+func (s *netSim) staleLockScenario() bool {
+	ht := s.hs[1]
+	cor := s.correct()
+	if len(cor) != 3 || ht == nil {
+		return false
+	}
+	b := s.byzIDs(ht)[0]
+	p1, p2 := s.nodes[s.proposerOf(ht, 1)], s.nodes[s.proposerOf(ht, 2)]
+	var x *netNode
+	for _, nd := range cor {
+		if nd.id != p1.id && nd.id != p2.id {
+			x = nd
+		}
+	}
+	if x == nil || p1.byz || p2.byz || p1.id == p2.id {
+		s.o.Count("scenario:stale-lock:setup-not-applicable")
+		return false
+	}
+	notReached := func(why string) bool {
+		s.o.Count("scenario:stale-lock:prefix-not-reached:" + why)
+		return false
+	}
+	fireAll := func(l ...*netNode) {
+		for _, nd := range l {
+			if nd.ticker.fire() {
+				s.handleTock(nd, len(nd.ticker.tocks)-1)
+			}
+		}
+	}
+	toAll := func(v *types.Vote, l ...*netNode) {
+		if v == nil {
+			return
+		}
+		m := s.archiveMsg(&netMsg{h: 1, kind: 'V', vote: v, from: b})
+		for _, nd := range l {
+			s.deliver(nd, m, fmt.Sprintf("byz%d", b))
+		}
+	}
+	// the network during the prefix: X receives round-1 prevotes only; nothing from X reaches P1, P2
+	s.hold = func(m *netMsg, to int) bool {
+		if to == x.id {
+			return !(m.kind != 'V' && m.h == 1 && (m.kind == 'B' || m.prop.Round == 1)) && !(m.kind == 'V' && m.vote.Round == 1 && m.vote.Type == kproto.PrevoteType)
+		}
+		return m.from == x.id
+	}
+	fireAll(cor...) // NewHeight -> round 1, P1 proposes
+	s.flush()
+	if x.cs.LockedRound != 1 || p1.cs.LockedBlock != nil || p2.cs.LockedBlock != nil {
+		return notReached("round1-lock")
+	}
+	a := types.BlockID{Hash: x.cs.LockedBlock.Hash(), PartsHeader: x.cs.LockedBlockParts.Header()}
+	toAll(s.byzVote(b, 1, kproto.PrevoteType, 1, types.BlockID{}), p1, p2) // +2/3 any prevotes
+	fireAll(p1, p2)                                                         // PrevoteWait -> precommit nil
+	s.flush()
+	toAll(s.byzVote(b, 1, kproto.PrecommitType, 1, types.BlockID{}), p1, p2) // +2/3 nil precommits
+	s.flush()
+	fireAll(p1, p2) // PrecommitWait -> round 2, P2 proposes
+	s.flush()
+	if p1.cs.Round != 2 || p2.cs.Round != 2 || p2.cs.Proposal == nil || p1.cs.ProposalBlock == nil {
+		return notReached("round2-proposal")
+	}
+	c := p2.cs.Proposal.POLBlockID
+	if c.Equal(a) {
+		return notReached("same-block")
+	}
+	toAll(s.byzVote(b, 1, kproto.PrevoteType, 2, c), p1, p2) // polka for C at round 2
+	s.flush()
+	if p1.cs.LockedRound != 2 || p2.cs.LockedRound != 2 {
+		return notReached("round2-lock")
+	}
+	toAll(s.byzVote(b, 1, kproto.PrecommitType, 2, types.BlockID{}), p1, p2) // +2/3 any precommits, no commit
+	s.flush()
+	fireAll(p1, p2) // PrecommitWait -> round 3
+	s.flush()
+	for k := 0; k < 3; k++ { // propose timeout of round 3 where no complete proposal arrived
+		for _, nd := range []*netNode{p1, p2} {
+			if nd.cs.Round == 3 && nd.cs.Step <= cstypes.RoundStepPropose {
+				fireAll(nd)
+			}
+		}
+		s.flush()
+	}
+	if p1.cs.Round != 3 || p2.cs.Round != 3 || p1.cs.Step < cstypes.RoundStepPrevote || p2.cs.Step < cstypes.RoundStepPrevote {
+		return notReached("round3-prevotes")
+	}
+	if x.cs.Round != 1 || x.cs.LockedRound != 1 {
+		return notReached("x-moved")
+	}
+	// X receives the prevotes of rounds 2 and 3
+	for _, r := range []uint32{2, 3} {
+		if r == 3 {
+			if v := s.byzVote(b, 1, kproto.PrevoteType, 3, types.BlockID{}); v != nil {
+				s.archiveMsg(&netMsg{h: 1, kind: 'V', vote: v, from: b})
+			}
+		}
+		for _, m := range append([]*netMsg{}, ht.archive...) {
+			if m.kind == 'V' && m.vote.Type == kproto.PrevoteType && m.vote.Round == r && m.from != x.id {
+				s.deliver(x, m, fmt.Sprintf("n%d", m.from))
+			}
+		}
+	}
+	if x.cs.Round != 3 || x.cs.LockedRound != 1 {
+		return notReached(fmt.Sprintf("x-at-round-%d-locked-%d", x.cs.Round, x.cs.LockedRound))
+	}
+	s.hold = nil
+	s.o.Mark("scenario-stale-lock-prefix-reached")
+	return true
+}
+
 // ---------------------------------------------------------------------------------------------
 // one run
 
@@ -2286,6 +2428,10 @@ func netRun(o *netOut, r *netRand, idx int, mode string) {
 	n := 4 + r.Intn(4)
 	if mode == "C04" && idx%10 == 9 {
 		s.scenario = "bft-time"
+		n = 4
+	}
+	if mode == "C04" && idx%10 == 8 {
+		s.scenario = "stale-lock"
 		n = 4
 	}
 	s.n = n
@@ -2376,13 +2522,15 @@ func netRun(o *netOut, r *netRand, idx int, mode string) {
 	}
 	useDoc := r.Chance(1, 2)
 	if s.scenario != "" {
-		// exactly one Byzantine validator, not the proposer of the first round
-		prop := types.NewValidatorSet(vals).GetProposer().Address
+		// exactly one Byzantine validator, not the proposer of the first two rounds
+		vs0 := types.NewValidatorSet(vals)
+		prop := vs0.GetProposer().Address
+		prop2 := vs0.CopyIncrementProposerPriority(1).GetProposer().Address
 		for k := range s.byz {
 			s.byz[k] = false
 		}
 		for k := range s.byz {
-			if !s.keys[k].GetAddress().Equal(prop) {
+			if a := s.keys[k].GetAddress(); !a.Equal(prop) && !a.Equal(prop2) {
 				s.byz[k] = true
 				break
 			}
@@ -2439,6 +2587,10 @@ func netRun(o *netOut, r *netRand, idx int, mode string) {
 		ok = s.bftTimeScenario() && s.synchronous(2)
 		o.Count("scenario:bft-time")
 	}
+	if s.scenario == "stale-lock" {
+		ok = s.staleLockScenario() && s.synchronous(1)
+		o.Count("scenario:stale-lock")
+	}
 	for T := uint64(1); T <= uint64(s.heights) && ok && s.scenario == ""; T++ {
 		budget := 0
 		switch r.Pick(2, 4, 4) {
@@ -2465,7 +2617,7 @@ func netRun(o *netOut, r *netRand, idx int, mode string) {
 		}
 	}
 	o.Count(fmt.Sprintf("max-round<=%d", (maxR/3+1)*3))
-	if mode == "C01" {
+	if s.scenario == "" {
 		s.blockSync()
 	}
 	s.checkHeights()
